@@ -97,6 +97,30 @@ Example C18_outside_window_refuted :
   canonical_ref ref_ex Plus (5, 14) = true /\ canonical_on late_ex Plus (5, 14) = false /\ ~ inside late_ex (5, 14) /\
   canonical_ref ref_ex Plus (6, 14) = false /\ canonical_on late_ex Plus (6, 14) = true.
 Proof. split; [exact late_ex_covers|exact outside_window_refuted]. Qed.
+(* ... which is how a reloaded GeneInfo behaved before fixes/C18_serialize_read_region.diff: the save file kept the gene region only and the
+   loader cut the window for it.  With the stage-1 window (gene region + region and spans of the reads) stored in the gene header
+   (CanonReload.v: reloaded_window true = that window; in_read_region = inside it) the restriction disappears: for EVERY intron inside the stored
+   window - i.e. every intron of every read of the group, of every model built from them and of every annotated transcript of the genes - the
+   test reads the chromosome's own bases, and the printed flags of reads and models are flag_ref of the chromosome, whatever was processed before *)
+From IQ Require Import CanonSpec CanonReload.
+Theorem C18_canonical_reloaded : forall text g st i, region_valid text g -> in_read_region g i ->
+  canonical_on (reloaded_window true text g) st i = canonical_ref (ref_of text) st i.
+Proof. exact canonical_reloaded. Qed.
+Print Assumptions C18_canonical_reloaded.
+Theorem C18_flag_spec_reloaded : forall text g m st exons, region_valid text g -> Forall (in_read_region g) (jfb exons) ->
+  sound (reloaded_window true text g) m ->
+  snd (read_flag (reloaded_window true text g) m st exons) = Some (flag_ref text st exons) /\
+  snd (model_flag (reloaded_window true text g) m None st exons) = Some (flag_ref text st exons).
+Proof. exact flag_spec_reloaded. Qed.
+Print Assumptions C18_flag_spec_reloaded.
+(* the two reloads on the example above: genes at 10..30, a read from 1 to 30 with the GT..AG intron 5..14; the unrepaired reload is late_ex *)
+Example C18_reload_example :
+  region_valid text_ex saved_ex /\ in_read_region saved_ex (5, 14) /\
+  reloaded_window false text_ex saved_ex = late_ex /\
+  canonical_ref (ref_of text_ex) Plus (5, 14) = true /\
+  canonical_on (reloaded_window false text_ex saved_ex) Plus (5, 14) = false /\
+  canonical_on (reloaded_window true text_ex saved_ex) Plus (5, 14) = true.
+Proof. exact reload_example. Qed.
 (* --report_canonical all: strand '.' is possible (see C04) *)
 Example C18_dot_strand_report_all :
   let w := {| wstart := 1; wseq := [65;65;65;65;65;65;65;65;65;65;65;65;65;65;65;65;65;65] |} in
